@@ -26,7 +26,7 @@ func (m *Mutex) Lock() {
 	if aborted() {
 		return
 	}
-	point(fmt.Sprintf("lock %p", m), func() bool { return !m.locked })
+	point(fmt.Sprintf("lock #%d", objID(m)), func() bool { return !m.locked })
 	m.locked = true
 }
 
@@ -37,7 +37,7 @@ func (m *Mutex) TryLock() bool {
 	if aborted() {
 		return true
 	}
-	point(fmt.Sprintf("trylock %p", m), nil)
+	point(fmt.Sprintf("trylock #%d", objID(m)), nil)
 	if m.locked {
 		return false
 	}
@@ -53,7 +53,7 @@ func (m *Mutex) Unlock() {
 	if aborted() {
 		return
 	}
-	point(fmt.Sprintf("unlock %p", m), nil)
+	point(fmt.Sprintf("unlock #%d", objID(m)), nil)
 	if !m.locked {
 		panic("vsync: unlock of unlocked mutex")
 	}
@@ -76,7 +76,7 @@ func (m *RWMutex) Lock() {
 	if aborted() {
 		return
 	}
-	point(fmt.Sprintf("wlock %p", m), func() bool { return !m.writer && m.readers == 0 })
+	point(fmt.Sprintf("wlock #%d", objID(m)), func() bool { return !m.writer && m.readers == 0 })
 	m.writer = true
 }
 func (m *RWMutex) Unlock() {
@@ -87,7 +87,7 @@ func (m *RWMutex) Unlock() {
 	if aborted() {
 		return
 	}
-	point(fmt.Sprintf("wunlock %p", m), nil)
+	point(fmt.Sprintf("wunlock #%d", objID(m)), nil)
 	m.writer = false
 }
 func (m *RWMutex) RLock() {
@@ -98,7 +98,7 @@ func (m *RWMutex) RLock() {
 	if aborted() {
 		return
 	}
-	point(fmt.Sprintf("rlock %p", m), func() bool { return !m.writer })
+	point(fmt.Sprintf("rlock #%d", objID(m)), func() bool { return !m.writer })
 	m.readers++
 }
 func (m *RWMutex) RUnlock() {
@@ -109,7 +109,7 @@ func (m *RWMutex) RUnlock() {
 	if aborted() {
 		return
 	}
-	point(fmt.Sprintf("runlock %p", m), nil)
+	point(fmt.Sprintf("runlock #%d", objID(m)), nil)
 	m.readers--
 }
 func (m *RWMutex) RLocker() Locker { return (*rlocker)(m) }
@@ -134,7 +134,7 @@ func (w *WaitGroup) Add(d int) {
 	if aborted() {
 		return
 	}
-	point(fmt.Sprintf("wgadd %p", w), nil)
+	point(fmt.Sprintf("wgadd #%d", objID(w)), nil)
 	w.n += d
 	if w.n < 0 {
 		panic("vsync: negative WaitGroup counter")
@@ -149,7 +149,7 @@ func (w *WaitGroup) Wait() {
 	if aborted() {
 		return
 	}
-	point(fmt.Sprintf("wgwait %p", w), func() bool { return w.n == 0 })
+	point(fmt.Sprintf("wgwait #%d", objID(w)), func() bool { return w.n == 0 })
 }
 
 // Go mirrors (*sync.WaitGroup).Go of newer toolchains.
@@ -184,7 +184,7 @@ func (o *Once) Do(f func()) {
 		// immutable: not a scheduling point (DESIGN.md C10).
 		return
 	}
-	point(fmt.Sprintf("once %p", o), func() bool { return o.state != 1 })
+	point(fmt.Sprintf("once #%d", objID(o)), func() bool { return o.state != 1 })
 	if o.state == 2 {
 		return
 	}
@@ -237,11 +237,11 @@ func (c *Cond) Wait() {
 	if aborted() {
 		return
 	}
-	point(fmt.Sprintf("condwait %p", c), nil)
+	point(fmt.Sprintf("condwait #%d", objID(c)), nil)
 	w := &condWaiter{}
 	c.waiters = append(c.waiters, w)
 	c.unlockNoPoint()
-	point(fmt.Sprintf("condblock %p", c), func() bool { return w.signalled })
+	point(fmt.Sprintf("condblock #%d", objID(c)), func() bool { return w.signalled })
 	c.L.Lock()
 }
 
@@ -267,7 +267,7 @@ func (c *Cond) Signal() {
 	if aborted() {
 		return
 	}
-	point(fmt.Sprintf("signal %p", c), nil)
+	point(fmt.Sprintf("signal #%d", objID(c)), nil)
 	if len(c.waiters) > 0 {
 		c.waiters[0].signalled = true
 		c.waiters = c.waiters[1:]
@@ -282,7 +282,7 @@ func (c *Cond) Broadcast() {
 	if aborted() {
 		return
 	}
-	point(fmt.Sprintf("broadcast %p", c), nil)
+	point(fmt.Sprintf("broadcast #%d", objID(c)), nil)
 	for _, w := range c.waiters {
 		w.signalled = true
 	}
@@ -314,7 +314,7 @@ func (c *Chan[T]) Send(v T) {
 	if c.cap == 0 {
 		panic("vsync.Chan: unbuffered channels are not modelled")
 	}
-	point(fmt.Sprintf("send %p", c), func() bool { return c.closed || len(c.buf) < c.cap })
+	point(fmt.Sprintf("send #%d", objID(c)), func() bool { return c.closed || len(c.buf) < c.cap })
 	if c.closed {
 		panic("send on closed channel")
 	}
@@ -331,7 +331,7 @@ func (c *Chan[T]) Recv() (T, bool) {
 	if aborted() {
 		return zero, false
 	}
-	point(fmt.Sprintf("recv %p", c), func() bool { return c.closed || len(c.buf) > 0 })
+	point(fmt.Sprintf("recv #%d", objID(c)), func() bool { return c.closed || len(c.buf) > 0 })
 	if len(c.buf) > 0 {
 		v := c.buf[0]
 		c.buf = c.buf[1:]
@@ -350,7 +350,7 @@ func (c *Chan[T]) Close() {
 	if aborted() {
 		return
 	}
-	point(fmt.Sprintf("close %p", c), nil)
+	point(fmt.Sprintf("close #%d", objID(c)), nil)
 	if c.closed {
 		panic("close of closed channel")
 	}
